@@ -25,7 +25,7 @@ RULE = (
     ">=4 dispatches with the job side of max() decisive at least once and the "
     "machine side decisive at least once; exhaustive: >=2 jobs, >=3 ops."
 )
-BUDGET = {"quick": 1000, "thorough": 4000}
+BUDGET = {"quick": 1000, "thorough": 12000}
 ASSUMPTIONS = [
     "jsverif/model.py RefState is the specification of start times",
 ]
